@@ -700,6 +700,40 @@ def make_filter_body(shape, tokeep, gspec):
     return body
 
 
+class _Prefixed:
+    """Env proxy that prefixes variable names and labels (several independent calls within one unit body)."""
+    def __init__(self, env, prefix):
+        self._e, self._p = env, prefix
+        self.symbolic = env.symbolic
+
+    def __getattr__(self, k):
+        return getattr(self._e, k)
+
+    def real(self, name, *a, **kw):
+        return self._e.real(self._p + name, *a, **kw)
+
+    def pos(self, name, *a, **kw):
+        return self._e.pos(self._p + name, *a, **kw)
+
+    def array(self, name, *a, **kw):
+        return self._e.array(self._p + name, *a, **kw)
+
+    def eq(self, label, *a, **kw):
+        return self._e.eq(self._p + ':' + label, *a, **kw)
+
+    def holds(self, label, *a, **kw):
+        return self._e.holds(self._p + ':' + label, *a, **kw)
+
+
+def make_history_body(bodies):
+    """The same operation called several times in one process on DIFFERENT grids of equal length (and fresh
+    densities): every call must be the operation on the grid it was given (no state kept between calls)."""
+    def body(env):
+        for i, b in enumerate(bodies):
+            b(_Prefixed(env, 'call%d' % i))
+    return body
+
+
 def make_reorder_body(shape, orders, bad):
     def body(env):
         from dadi import PhiManip
@@ -808,6 +842,29 @@ def units(tier, seed):
                list(range(1, nd)), [1] * nd if nd > 1 else [2]]
         add('reorder-%s' % 'x'.join(map(str, shape)), make_reorder_body(shape, perms, bad),
             dict(shape=list(shape), orders=[list(p) for p in perms], bad=bad), len(perms) + len(bad))
+
+    # ---- call histories: same operation, different grids of equal length, one process -------------
+    hist = [('remove-3x4-pop2', [make_remove_body((3, 4), 2, g) for g in ('exp4', 'irr4', 'uni4')], 9, 1),
+            ('remove-4x3x2-pop1', [make_remove_body((4, 3, 2), 1, g) for g in ('irr4', 'exp4')], 12, 1),
+            ('filter-3x2x3-keep2', [make_filter_body((3, 2, 3), [2], g) for g in ('irr3', 'alt3', 'hig3')], 3, 1)]
+    for sp in splits:
+        if sp['nsrc'] == 1:
+            hist.append(('split-%s' % sp['name'],
+                         [make_split_body(sp['name'], 1, sp['parent'], g) for g in ('exp5', 'irr5', 'alt5')], 8, None))
+    for ct in ctors:
+        if ct['nsrc'] == 2:
+            hist.append(('ctor-%s' % ct['name'],
+                         [make_ctor_points_body(ct['name'], 2, gs, _pts(ct['nf'])[:2])
+                          for gs in (['uni4', 'uni4', 'uni4'], ['irr4', 'alt4', 'exp4'])], 2, None))
+    for pu in pulses:
+        if pu['nd'] == 2:
+            hist.append(('pulse-%s' % pu['name'],
+                         [make_pulse_points_body(pu['name'], 2, pu['dest'], pu['srcs'], gs, _pts(len(pu['srcs']))[:2])
+                          for gs in (['uni5', 'uni5'], ['irr5', 'alt5'])], 2, None))
+    for nm, bodies, mo, paths in hist:
+        us.append(H.Unit('hist-' + nm, make_history_body(bodies), params=dict(history=nm, calls=len(bodies)),
+                         setup=_setup, min_obligations=mo, timeout_s=1500 if thorough else 400, expect_paths=paths,
+                         maxpaths=4000, query_timeout_ms=120000))
 
     # ---- (a,b) new-population constructors ----------------------------------------------------
     for sp in splits:
